@@ -124,6 +124,42 @@ func rawS1(s string) string {
 	if plain {
 		return `"` + strings.ReplaceAll(s, `"`, `""`) + `"`
 	}
+	if len(s) >= 64 {
+		// mostly printable text with a few other bytes (line breaks of a pretty-printed document, some UTF-8): printable runs as
+		// literals, the other runs as byte lists, joined by ++ (a byte list costs ~4 characters per byte and elaborates slowly)
+		np := 0
+		for i := 0; i < len(s); i++ {
+			if s[i] < 0x20 || s[i] > 0x7e {
+				np++
+			}
+		}
+		if np*6 < len(s) {
+			var parts []string
+			for i := 0; i < len(s); {
+				j := i
+				isPlain := s[i] >= 0x20 && s[i] <= 0x7e
+				for j < len(s) && (s[j] >= 0x20 && s[j] <= 0x7e) == isPlain {
+					j++
+				}
+				if isPlain {
+					parts = append(parts, `"`+strings.ReplaceAll(s[i:j], `"`, `""`)+`"`)
+				} else {
+					var nb strings.Builder
+					nb.WriteString("B [")
+					for k := i; k < j; k++ {
+						if k > i {
+							nb.WriteByte(';')
+						}
+						nb.WriteString(strconv.Itoa(int(s[k])))
+					}
+					nb.WriteString("]%N")
+					parts = append(parts, nb.String())
+				}
+				i = j
+			}
+			return "(" + strings.Join(parts, " ++ ") + ")%string"
+		}
+	}
 	var b strings.Builder
 	b.Grow(len(s)*4 + 8)
 	b.WriteString("(B [")
